@@ -585,7 +585,14 @@ func genC07(g *G, sc *Scenario, tier string) {
 			if len(free) > 0 {
 				d := g.Pick(free)
 				m.Create(d)
-				sc.Ops = append(sc.Ops, Op{K: "createDataset", DS: d})
+				op := Op{K: "createDataset", DS: d}
+				switch g.Intn(5) {
+				case 0:
+					op.M = map[string]any{"publicNamespaces": []any{ExE, ExS}}
+				case 1:
+					op.M = map[string]any{"publicNamespaces": []any{ExE}, "virtual": "ZnVuY3Rpb24gYnVpbGRfZW50aXRpZXMoKSB7fQ=="}
+				}
+				sc.Ops = append(sc.Ops, op)
 				mgmtOps = append(mgmtOps, len(sc.Ops)-1)
 			}
 		case x < 0.40 && len(live) > 0:
